@@ -146,6 +146,19 @@ def foldTree {α : Type} : List α → Option (Tree α)
   | [] => none
   | a :: rest => some (rest.foldl (fun t x => .node t (.leaf x)) (.leaf a))
 
+/-- Evaluate the partition results through the model of `QueryTask` (`Combine.schedule`) for a two-worker
+    assignment in which worker 1 completes the odd partitions in reverse order and worker 2 the even ones — a
+    schedule unlike the left fold; by `C02_schedule_tree` + `C02_combine_assoc` every schedule gives the same
+    answer, the driver just does not rely on it.  `none` if the schedule does not end with the single full-range entry. -/
+def schedEval {α : Type} (f : α → α → α) (leaves : List α) : Option α :=
+  let n := leaves.length
+  let idx := List.range n
+  let w1 := (idx.filter (· % 2 = 1)).reverse
+  let w2 := idx.filter (· % 2 = 0)
+  match schedule f leaves [w1, w2] with
+  | [s] => if s.lo = 0 ∧ s.hi = n then some s.val else none
+  | _ => none
+
 /-- `Res.all` on the partitions, as text for the error cases. -/
 inductive Pred where
   | rows (r : List Row)
@@ -169,9 +182,12 @@ def physSel (c : Case) (split : List Nat) : Pred :=
   let parts := (splitRows split c.rows).filter (fun p => !p.isEmpty)
   match Res.all (parts.map (selectRows i2fNative q)) with
   | .ok leaves =>
-      (match foldTree leaves with
-       | some t => .rows (evalPhysSel i2fNative q t)
-       | none => .rows [])
+      if leaves.isEmpty then .rows [] else
+      (match schedEval (combineSel (q.limit + q.offset)) leaves, foldTree leaves with
+       | some v, some t =>
+           -- both the scheduled evaluation and the left fold, which must agree
+           if outputSlice q.limit q.offset v == evalPhysSel i2fNative q t then .rows (outputSlice q.limit q.offset v) else .unknown
+       | _, _ => .unknown)
   | .overflow => .err "err:overflow"
   | .unsupported => .unknown
 
@@ -200,9 +216,12 @@ def physOrd (c : Case) (split : List Nat) : Pred :=
     -- the top-n path is not stable: with ties inside such a partition the engine may return any of them
     if its.any (fun l => usesTopN c l.1 && hasTie dirs l.2) then .unknown
     else
-      match foldTree (its.map fun l => partSorted q l.2) with
-      | some t => .rows ((evalPhysOrd q t).map (·.2))
-      | none => .rows []
+      let sorted := its.map fun l => partSorted q l.2
+      if sorted.isEmpty then .rows [] else
+      match schedEval (combineSort (itemLe dirs) (q.limit + q.offset)) sorted, foldTree sorted with
+      | some v, some t =>
+          if outputSlice q.limit q.offset v == evalPhysOrd q t then .rows ((outputSlice q.limit q.offset v).map (·.2)) else .unknown
+      | _, _ => .unknown
 
 /-- The relation: look every returned row up by its `id` (first cell), check it shows what that row shows, judge. -/
 def judgeOrd (c : Case) (out : List Row) : String :=
@@ -430,6 +449,8 @@ def classifyGrp (c : Case) (spec : Res (List Row)) (r : Real) : String :=
         else if c.kind = .grp && nullIntKey c && r.split.length ≥ 2 &&
             (match rowsExplained c cc ac s (regroup c.sel out) with | some _ => true | none => false) then "groupby-null-key-order"
         else if c.kind = .grp && keysTruncated c s out then "groupby-compressed-key-type"
+        -- both at once: groups emitted twice AND truncated keys (a layout with NULL keys and compressed key columns)
+        else if c.kind = .grp && nullIntKey c && r.split.length ≥ 2 && keysTruncated c s (regroup c.sel out) then "groupby-null-key-order"
         else ""
   | .ok _, none =>
       if may && r.out = "err:overflow" then "sum-overflow-order"
@@ -454,17 +475,8 @@ def exprCols : Expr → List Nat
 def referencedCols (c : Case) : List Nat :=
   c.exprs.flatMap exprCols ++ (c.pred.map exprCols).getD [] ++ c.order.map (·.1)
 
-/-- `null-typed-partition` (C02): a column the query reads is entirely NULL in one partition of the realisation and
-    therefore typed `Null` there, while the realisation has at least two partitions.  Open manifestations: ORDER BY
-    with several keys does not tie the NULLs of such a partition (Val::Null) with the NULLs of typed partitions
-    (sentinel cast to Val::Integer), so later keys are ignored; a WHERE that is NULL for the whole partition plans
-    `Empty` for a Null-typed column (FatalError). -/
-def nullTypedPartition (c : Case) (r : Real) : Bool :=
-  let parts := (splitRows r.split c.rows).filter (fun p => !p.isEmpty)
-  parts.length ≥ 2 &&
-    (referencedCols c).any fun k =>
-      parts.any (fun p => p.all (fun row => row.getD k .null == .null)) &&
-      parts.any (fun p => p.any (fun row => row.getD k .null != .null))
+/-! (`null-typed-partition` (C02) — ORDER BY tie between sentinel NULL and Val::Null, `Empty` on a Null-typed column —
+    was repaired in /repo d5d65c1 / 02c9cc0; its classifier has been removed.) -/
 
 /-- `topn-nullable-fused` (C05/C02): single ORDER BY key with a NULL in a partition that takes the top-n path. -/
 def topNNullableKey (c : Case) (r : Real) : Bool :=
@@ -474,12 +486,10 @@ def topNNullableKey (c : Case) (r : Real) : Bool :=
         usesTopN c p && p.any (fun row => row.getD k .null == .null)
   | _ => false
 
-def classifyOrdSel (c : Case) (r : Real) (why : String) : String :=
+def classifyOrdSel (c : Case) (r : Real) (_why : String) : String :=
   let c07 := classifyObs r.obs
   if c07 ≠ "" then c07
   else if c.kind = .ord && topNNullableKey c r && (r.out = "err:canceled" || r.out = "panic") then "topn-nullable-fused"
-  else if nullTypedPartition c r &&
-      (r.out = "err:fatal" || (c.kind = .ord && c.order.length ≥ 2 && (why = "unsorted" || why = "wrong-cut"))) then "null-typed-partition"
   else ""
 
 /-! ### one case -/
